@@ -148,8 +148,23 @@ func runC10(t *testing.T, seed int64, n int, out *Out) {
 		w := NewWorld(t, seed*100+int64(wi), 8)
 		std := w.SeedStandard()
 		h := &Hist{w: w, std: std, r: r}
+		// governance-permitted settings of the leveragelp fallback sweep (every block / one position per block / every 7th block /
+		// off): with the sweep off or slow an unhealthy position stays open until a bot names it - or its owner re-opens it
+		sweep := []string{"default", "off", "every-7-blocks", "one-per-block"}[r.Intn(4)]
+		w.Seed(func(ctx sdk.Context) {
+			p := w.App.LeveragelpKeeper.GetParams(ctx)
+			switch sweep {
+			case "one-per-block":
+				p.NumberPerBlock = 1
+			case "every-7-blocks":
+				p.EpochLength = 7
+			case "off":
+				p.FallbackEnabled = false
+			}
+			_ = w.App.LeveragelpKeeper.SetParams(ctx, &p)
+		})
 		w.Block(5*time.Second, nil)
-		out.Line(J{"t": "c10.begin", "id": wi})
+		out.Line(J{"t": "c10.begin", "id": wi, "lpSweep": sweep})
 		owners := w.Accts[1:5]
 		bots := w.Accts[5:7]
 		tx := func(signer *Acct, msgs ...sdk.Msg) TxRes {
